@@ -152,10 +152,11 @@ theorem C08_perm_new (fl : NFlags) (hg : fl.getset = true) (ts : List NType) (d 
     rw [generate_eq_seqRun fl hg]
     exact seqRun_perm noLeaks fl hw ts d (fun _ h => h) hw.names hH hC hd ts' hp hd'
 
-/-- with the proposed repair (`Repair.depsFirst`: Generate processes embedded listed types first) the order of the
-    `-type` list does not matter at all: every arrangement gives every type the same output, in list order.
+/-- NOT A PROPERTY OF THE CODE AT HEAD (`codeRepair = noRepair`): a statement about the PROPOSED repair
+    notes/proposed/deps-first-and-shadow-aio.patch, which was not applied.  With `Repair.depsFirst` (Generate
+    processes embedded listed types first) the order of the `-type` list does not matter at all: every arrangement gives every type the same output, in list order.
     `SizeConsistent` (inside `RunOK`) only says that the descriptions of the types are consistent with each other. -/
-theorem C08_perm_repaired (fl : NFlags) (hg : fl.getset = true) (rp : Repair) (hrp : rp.depsFirst = true)
+theorem C08_proposed_repair_perm (fl : NFlags) (hg : fl.getset = true) (rp : Repair) (hrp : rp.depsFirst = true)
     (ts : List NType) (d : Disk) (h : RunOK ts d) (ts' : List NType) (hp : ts'.Perm ts) :
     generateR rp (newMachine codeToday fl) .sep d ts = ts.map (fun t => (t, canonOut fl d ts t)) ∧
     generateR rp (newMachine codeToday fl) .sep d ts' = ts'.map (fun t => (t, canonOut fl d ts t)) ∧
@@ -210,6 +211,25 @@ theorem C08_merge_imports (f : File) (fs : List File) (o : Out) (h : merge (f ::
       constructor
       · rintro ⟨i, ⟨g, hg, hi⟩, rfl⟩; exact ⟨g, hg, i, hi, rfl⟩
       · rintro ⟨g, hg, i, hi, rfl⟩; exact ⟨i, ⟨g, hg, hi⟩, rfl⟩
+
+/-- the import SET of the merged file is the union of the (local name, path) PAIRS of the files: the same package imported
+    under two different local names keeps both specs (the key `Path.Value + Name.Name` determines the pair when the
+    specs are parser-shaped: quoted path, identifier name); no pair occurs twice -/
+theorem C08_merge_imports_pairs (f : File) (fs : List File) (o : Out) (h : merge (f :: fs) = .ok o)
+    (hq : ∀ g ∈ f :: fs, ∀ i ∈ g.imports, i.quoted) :
+    (∀ i : Import, i ∈ o.imports ↔ ∃ g ∈ f :: fs, i ∈ g.imports) ∧ o.imports.Nodup := by
+  have h1 := (C08_merge_imports f fs o h)
+  have hq' : ∀ i ∈ (f :: fs).flatMap (·.imports), i.quoted := by
+    intro i hi
+    obtain ⟨g, hg, hig⟩ := List.mem_flatMap.mp hi
+    exact hq g hg i hig
+  constructor
+  · intro i
+    rw [h1.1, specImports, firstOcc_mem_iff _ hq' i, List.mem_flatMap]
+  · exact nodup_of_nodup_map Import.key _ h1.2.1
+
+/-- second tie: the key really is path + local name in the CURRENT source (source.go, MergeSources) -/
+theorem C08_merge_key_fact : Facts.mergeImportKey = ["imp.Path.Value", "imp.Name.Name"] := by decide
 
 /-- one header, one package clause: those of the first file -/
 theorem C08_merge_header (f : File) (fs : List File) (o : Out) (h : merge (f :: fs) = .ok o) :
@@ -311,7 +331,7 @@ def wA1 : NType :=
   { name := "A", file := "t.shootnew.a.go", gs := [("id", true, true)],
     tree := .embed "E" "E" false false (.field { name := "name", ptype := "string" } .nil) (.field { name := "id" } .nil) }
 
-/-- `C08_perm_repaired`: the embedder-first list [A, E] over a directory with stale output meets `RunOK` (decidable
+/-- `C08_proposed_repair_perm`: the embedder-first list [A, E] over a directory with stale output meets `RunOK` (decidable
     checks), and with the repair both arrangements give A the embedded EGetter; without it the list order shows -/
 example : hygB [wA1, wE1] [{ name := "t.shootnew.e.go", defs := [("EGetter", {})] }] = true ∧ cloB [wA1, wE1] [] = true ∧
     (generateR fullRepair (newMachine codeToday { getset := true }) .sep [] [wA1, wE1]).map (·.2.getIfaces) = [["E"], []] ∧
